@@ -302,7 +302,10 @@ func c02Workload(ctx *lib.Ctx, nCases, K int) {
 			}
 			probes = append(probes, probe{p, text, variant})
 		}
-		prof := &lib.ProfileDoc{Name: fmt.Sprintf("c02-%d", i), Prefixes: [][2]string{{"ex", lib.EX}}}
+		// the vocabulary of graph and profile alternates inside every worker; the model keeps working over the example namespace
+		ns := lib.Namespaces[(i/16)%len(lib.Namespaces)]
+		ctx.Count("namespace:"+ns, 1)
+		prof := &lib.ProfileDoc{Name: fmt.Sprintf("c02-%d", i), Prefixes: [][2]string{{"ex", ns}}}
 		allMarks := []string{}
 		for j := range g.Nodes {
 			allMarks = append(allMarks, fmt.Sprintf("m%d", j))
@@ -329,8 +332,9 @@ func c02Workload(ctx *lib.Ctx, nCases, K int) {
 			}
 		}
 		ptext := prof.Text()
-		dtext := g.CanonicalJSONLD()
+		dtext := lib.Rebase(g.CanonicalJSONLD(), lib.EX, ns)
 		o := lib.Validate(ptext, dtext)
+		o.Report = lib.Rebase(o.Report, ns, lib.EX)
 		func() {
 			base := map[string]any{"profile": ptext, "data": dtext}
 			if o.Failed() {
